@@ -259,6 +259,27 @@ def returned_local(fn):
             if rv is None or rv[0] != 'var':
                 return None
             ds.add(rv[1])
+    # `return helper();` in normal form: the result local of the inlined helper stands for the local(s) the helper returned
+    hops = 0
+    while hops < 4:
+        hops += 1
+        nxt = set()
+        moved = False
+        for d in ds:
+            inits = [v['init'] for m in fn.all_nodes() if m.get('k') == 'decl' and m.get('inlined_return')
+                     for v in m['vars'] if v['d'] == d and isinstance(v.get('init'), int)]
+            if not inits:
+                nxt.add(d)
+                continue
+            for i in inits:
+                rv = fn.root_var(i)
+                if rv is None or rv[0] != 'var':
+                    return None
+                nxt.add(rv[1])
+                moved = True
+        ds = nxt
+        if not moved:
+            break
     return ds.pop() if len(ds) == 1 else None
 
 
@@ -587,3 +608,385 @@ def helper_reaches(fb, fn, n, names=(), members=()):
                 if any(x.get('k') == 'member' and x.get('name') in members for x in h.all_nodes()):
                     return True
     return False
+
+
+# ------------------------------------------------------------------------------------------------ normal form of a function body
+#
+# The path rules of C09 are stated on ONE control-flow graph per entry point (a read() override, a close() override, the read
+# thread function).  To keep them independent of how that code is cut into functions and of the statement form used for a
+# multi-way branch, they run on a normal form of the body:
+#   * calls to helpers of the same class invoked on `this`, and to free io-layer helpers that (transitively) contain one of the
+#     library calls the rules talk about, are replaced by the helper's CFG (reference parameters bound to a local / member are
+#     substituted, value parameters become initialised locals, `return e` becomes the initialisation of a result local that the
+#     former call expression denotes); nodes of an inlined body lie inside every try that encloses the call site;
+#   * a `switch` over constants becomes the equivalent chain of `==` tests, so that the three-valued walk prunes the case
+#     blocks exactly as it prunes if / else-if.
+
+from .facts import Fn, _CHILD_KEYS, _CHILD_LIST_KEYS  # noqa: E402
+
+
+def _is_id(v):
+    return isinstance(v, int) and not isinstance(v, bool)
+
+
+class NormFn(Fn):
+    def __init__(self, fn):   # noqa: super().__init__ deliberately not called: shallow clone of an existing body
+        self.__dict__.update(fn.__dict__)
+        self.nodes = dict(fn.nodes)
+        self.blocks = {k: dict(b) for k, b in fn.blocks.items()}
+        self.tries = list(fn.tries)
+        self.switches = list(fn.switches)
+        self.loops = list(fn.loops)
+        self.origin = {}      # inlined node id -> node id of the call it came from
+        self.base = fn
+        self._reset()
+
+    def _reset(self):
+        self._pos = None
+        self._preds = None
+        self._parent = None
+        self._dom = None
+        self._pdom = None
+
+    def enclosing_tries(self, nid):
+        out = Fn.enclosing_tries(self, nid)
+        o = self.origin.get(nid)
+        if o is not None:
+            out = out + self.enclosing_tries(o)
+        return out
+
+    def enclosing_handlers(self, nid):
+        out = Fn.enclosing_handlers(self, nid)
+        o = self.origin.get(nid)
+        if o is not None:
+            out = out + self.enclosing_handlers(o)
+        return out
+
+    def new_node(self, n):
+        nid = max(self.nodes) + 1 if self.nodes else 0
+        n = dict(n)
+        n['id'] = nid
+        self.nodes[nid] = n
+        return nid
+
+    def new_block(self, b):
+        bid = max(self.blocks) + 1
+        b = dict(b)
+        b['id'] = bid
+        self.blocks[bid] = b
+        return bid
+
+
+def lower_switches(g):
+    """switch (e) { case k1: A; case k2: B; default: D }  ->  if (e == k1) goto A; else if (e == k2) goto B; else goto D."""
+    for b in list(g.blocks.values()):
+        if b.get('termcls') != 'SwitchStmt' or 'cond' not in b:
+            continue
+        cases, rest = [], []
+        ok = True
+        for s in b['succs']:
+            if s is None:
+                continue
+            lab = g.blocks[s].get('label') or {}
+            if _is_id(lab.get('case')):
+                if E.const_of(g, lab['case']) is None or lab.get('case2') is not None:
+                    ok = False
+                cases.append((s, lab['case']))
+            else:
+                rest.append(s)
+        if not ok or not cases or len(rest) > 1:
+            continue
+        fallback = rest[0] if rest else None
+        cur = b
+        sw = b['cond']
+        for i, (s, lab) in enumerate(cases):
+            src = g.nodes.get(g.strip(sw)) or {}
+            t = g.new_node({'k': 'binop', 'op': '==', 'lhs': sw, 'rhs': lab, 'cls': 'BinaryOperator', 't': 'bool',
+                            'l': src.get('l'), 'o': src.get('o'), 'synthetic': True})
+            if src.get('o') is None:
+                g.nodes[t].pop('o')
+                g.nodes[t].pop('l')
+            if sw in g.origin:
+                g.origin[t] = g.origin[sw]
+            cur['elems'] = list(cur.get('elems', [])) + [t]
+            cur['cond'] = t
+            cur['termcls'] = 'IfStmt'
+            cur.pop('term', None) if cur is not b else None
+            if i + 1 < len(cases):
+                nxt = g.new_block({'elems': [], 'succs': []})
+                cur['succs'] = [s, nxt]
+                cur = g.blocks[nxt]
+            else:
+                cur['succs'] = [s, fallback]
+    g._reset()
+    return g
+
+
+_PURE_KINDS = {'binop', 'lit', 'wrap', 'icast', 'cast', 'condop', 'sizeof'}
+
+
+def substitute_named_conditions(g):
+    """`const bool failed = r != OK && r != END; ... if (failed)`  ->  the branch condition reads the initialiser itself.
+    Only for locals initialised once, never assigned, address never taken, whose initialiser is built from operators, constants
+    and locals / parameters that cannot change between the initialisation and the test."""
+    decls = {}
+    for n in g.nodes.values():
+        if n.get('k') == 'decl' and not n.get('inlined_return'):
+            for v in n['vars']:
+                decls.setdefault(v['d'], []).append((n['id'], v.get('init') if _is_id(v.get('init')) else None))
+    mods = {}
+    for n in g.nodes.values():
+        if n.get('k') == 'decl':
+            continue
+        for d in E.modified_vars(g, n):
+            mods.setdefault(d, []).append(n['id'])
+
+    def pure_vars(nid):
+        vs = set()
+        for x in g.subtree(g.strip(nid)):
+            m = g.nodes[x]
+            k = m.get('k')
+            if k == 'var':
+                if m.get('vk') in ('local', 'param'):
+                    vs.add(m['d'])
+                elif m.get('vk') != 'enumconst':
+                    return None
+            elif k == 'unop':
+                if m.get('op') not in ('!', '-', '+', '~'):
+                    return None
+            elif k not in _PURE_KINDS:
+                return None
+        return vs
+
+    cond_nodes = set()
+    for b in g.blocks.values():
+        if _is_id(b.get('cond')):
+            cond_nodes |= set(g.subtree(b['cond']))
+    changed = False
+    for x in sorted(cond_nodes):
+        n = g.nodes.get(x)
+        if n is None or n.get('k') != 'var' or n.get('vk') != 'local':
+            continue
+        d = n['d']
+        dl = decls.get(d, [])
+        if len(dl) != 1 or dl[0][1] is None or d in mods:
+            continue
+        de, init = dl[0]
+        vs = pure_vars(init)
+        if vs is None or d in vs:
+            continue
+        if not g.elem_dominates(de, x):
+            continue
+        ux = element_of(g, x)
+        ok = True
+        for v in vs:
+            for m in mods.get(v, []):
+                if reaches(g, de, m, barrier=lambda e: e == ux) and reaches(g, m, x, barrier=lambda e: e == de):
+                    ok = False
+        if not ok:
+            continue
+        keep = {k: n[k] for k in ('l', 'c', 'o', 'oe', 't') if k in n}
+        g.nodes[x] = dict(keep, id=x, k='wrap', sub=init, cls='ParenExpr', named=n.get('name'))
+        changed = True
+    if changed:
+        g._reset()
+    return changed
+
+
+_RELEVANT_EXTERN = None
+
+
+def _relevant_extern():
+    global _RELEVANT_EXTERN
+    if _RELEVANT_EXTERN is None:
+        s = set(PULLS)
+        for p in PULLS.values():
+            s |= p.reinit
+            if p.unused and p.unused[0] == 'query':
+                s.add(p.unused[1])
+        for k, v in OPEN_CLOSE.items():
+            s.add(k)
+            s |= v
+        _RELEVANT_EXTERN = s
+    return _RELEVANT_EXTERN
+
+
+def _inline_target(fb, g, call, stack):
+    """the body to inline for call node `call` of g, or None."""
+    if call.get('k') != 'call' or 'u' not in call or E.is_extern_c(call) or call.get('virt') or call.get('noret'):
+        return None
+    if not call.get('q', '').startswith('osmium::'):
+        return None
+    bodies = dedupe(fb.by_usr.get(call['u'], []))
+    if len(bodies) != 1:
+        return None
+    h = bodies[0]
+    if h.is_lambda or h.usr in stack or h.entry is None or len(h.nodes) > 1500:
+        return None
+    if len(call.get('args', []) or []) != len(h.params):
+        return None
+    if h.cls is not None and not h.static:
+        # member helper of the same class, called on this
+        r = g.sn(call['recv']) if call.get('recv') is not None else None
+        if h.cls != g.cls or r is None or r.get('k') != 'this' or h.kind != 'method':
+            return None
+        return h
+    if '/osmium/io/' not in h.file:
+        return None
+    if wrapper_pull(fb, call) is not None:
+        return None     # kept as a pull function of its own (reliable_read)
+    from .c08_util import reaches_extern
+    if reaches_extern(fb, h, _relevant_extern()):
+        return h
+    for x in E.closure_fns(fb, [h], depth=2):
+        if any(n.get('k') == 'call' and n.get('virt') and n.get('q', '').startswith(DECOMP + '::') for n in x.all_nodes()):
+            return h
+    return None
+
+
+def _inline_one(g, cid, h):
+    pos = g.positions()
+    if cid not in pos:
+        return False
+    b, i = pos[cid]
+    B = g.blocks[b]
+    elems = B['elems']
+    if i >= len(elems) or elems[i] != cid:
+        return False
+    call = g.nodes[cid]
+    noff = max(g.nodes) + 1
+    boff = max(g.blocks) + 1
+    dret = 10 ** 9 + noff
+    nonvoid = h.retC.strip() != 'void'
+    # ---- parameters
+    subst = {}     # param decl id -> replacement node content
+    synth = []
+    for p, a in zip(h.params, call.get('args', [])):
+        an = scn(g, a) if a is not None else None
+        t = p['tC'].rstrip()
+        if t.endswith('&') and an is not None and (
+                (an.get('k') == 'var' and an.get('vk') in ('local', 'param')) or
+                (an.get('k') == 'member' and an.get('field') and g.is_this_member(an['id']))):
+            subst[p['d']] = an
+        elif a is not None:
+            synth.append(g.new_node({'k': 'decl', 'cls': 'DeclStmt', 'l': call.get('l'), 'o': call.get('o'),
+                                     'vars': [{'d': p['d'], 'name': p['name'], 't': p['t'], 'tC': p['tC'], 'init': a}]}))
+    noff = max(g.nodes) + 1
+
+    def rid(v):
+        return v + noff if _is_id(v) else v
+
+    for nid, n in h.nodes.items():
+        m = dict(n)
+        for k in _CHILD_KEYS:
+            if _is_id(m.get(k)):
+                m[k] = m[k] + noff
+        for k in _CHILD_LIST_KEYS:
+            if k in m:
+                m[k] = [rid(v) for v in m[k]]
+        if m.get('k') == 'decl':
+            m['vars'] = [dict(v, init=rid(v['init'])) if _is_id(v.get('init')) else dict(v) for v in m['vars']]
+        if m.get('k') == 'lambda' and 'captures' in m:
+            m['captures'] = [dict(c, init=rid(c['init'])) if _is_id(c.get('init')) else dict(c) for c in m['captures']]
+        if m.get('k') == 'var' and m.get('vk') == 'param':
+            if m.get('d') in subst:
+                src = subst[m['d']]
+                keep = {k: m[k] for k in ('l', 'c', 'o', 'oe') if k in m}
+                m = dict(src)
+                m.update(keep)
+            else:
+                m['vk'] = 'local'
+        if m.get('k') == 'return':
+            if _is_id(m.get('sub')):
+                m = {'k': 'decl', 'cls': 'DeclStmt', 'l': m.get('l'), 'o': m.get('o'), 'inlined_return': True,
+                     'vars': [{'d': dret, 'name': '__result', 't': h.ret, 'tC': h.retC, 'init': m['sub']}]}
+            else:
+                m = {'k': 'stmt', 'cls': 'ReturnStmt', 'l': m.get('l'), 'o': m.get('o'), 'inlined_return': True}
+            m = {k: v for k, v in m.items() if v is not None}
+        m['id'] = nid + noff
+        g.nodes[nid + noff] = m
+        g.origin[nid + noff] = cid
+    # ---- the call expression now denotes the result local
+    keep = {k: call[k] for k in ('l', 'c', 'o', 'oe', 't') if k in call}
+    if nonvoid:
+        g.nodes[cid] = dict(keep, id=cid, k='var', vk='local', d=dret, name='__result', cls='DeclRefExpr', inlined_call=call.get('q'))
+    else:
+        g.nodes[cid] = dict(keep, id=cid, k='stmt', cls='InlinedCall', inlined_call=call.get('q'))
+    # ---- blocks
+    b2 = boff + max(h.blocks) + 1
+    B2 = {'id': b2, 'elems': [cid] + elems[i + 1:], 'succs': list(B['succs'])}
+    for k in ('term', 'termcls', 'cond'):
+        if k in B:
+            B2[k] = B.pop(k)
+    g.blocks[b2] = B2
+    B['elems'] = elems[:i] + synth
+    B['succs'] = [h.entry + boff]
+    for cb in h.blocks.values():
+        nb = dict(cb)
+        nb['id'] = cb['id'] + boff
+        nb['elems'] = [e + noff for e in cb['elems']]
+        nb['succs'] = [s + boff if s is not None else None for s in cb['succs']]
+        for k in ('term', 'cond'):
+            if _is_id(nb.get(k)):
+                nb[k] = nb[k] + noff
+        if 'label' in nb:
+            lab = dict(nb['label'])
+            if _is_id(lab.get('case')):
+                lab['case'] = lab['case'] + noff
+            nb['label'] = lab
+        if cb['id'] == h.exit:
+            nb['succs'] = [b2]
+        else:
+            last = h.nodes.get(cb['elems'][-1]) if cb['elems'] else None
+            if last is not None and (last.get('k') == 'throw' or (last.get('k') in ('call', 'construct') and last.get('noret'))) \
+                    and cb['succs'] == [h.exit]:
+                nb['succs'] = [g.exit]
+        g.blocks[nb['id']] = nb
+    g.tries = g.tries + list(h.tries)
+    g.switches = g.switches + list(h.switches)
+    g.loops = g.loops + list(h.loops)
+    g._reset()
+    return True
+
+
+def normalized(fb, fn, inline=True, _memo={}):
+    """Normal form of a function body (see above).  The result answers the Fn interface; identity (q, pat, site) is the root's."""
+    key = (id(fb), fn.usr, fn.full, fn.pat, inline)
+    if key in _memo:
+        return _memo[key]
+    if not fn.has_cfg:
+        _memo[key] = fn
+        return fn
+    g = NormFn(fn)
+    changed = False
+    if inline:
+        stacks = {}      # node id -> tuple of usrs it was inlined through
+        rounds = 0
+        progress = True
+        while progress and rounds < 12:
+            progress = False
+            rounds += 1
+            for n in list(g.nodes.values()):
+                if n.get('k') != 'call':
+                    continue
+                stack = stacks.get(n['id'], (fn.usr,))
+                if len(stack) > 3:
+                    continue
+                h = _inline_target(fb, g, n, stack)
+                if h is None:
+                    continue
+                before = set(g.nodes)
+                if _inline_one(g, n['id'], h):
+                    for x in set(g.nodes) - before:
+                        stacks[x] = stack + (h.usr,)
+                    progress = True
+                    changed = True
+                    break
+    if any(b.get('termcls') == 'SwitchStmt' for b in g.blocks.values()):
+        lower_switches(g)
+        changed = True
+    if substitute_named_conditions(g):
+        changed = True
+    res = g if changed else fn
+    _memo[key] = res
+    return res
